@@ -52,6 +52,15 @@ def spec_items(tier):
             yield ('mdp', 2, T, (), ((0, one),), g)
             T = ((('a', ((back, one),), F(r1a)), ('b', ((0, one),), F(r1b))), (('b', ((0, one),), F(r0)),))
             yield ('mdp', 2, T, (), ((0, F(1, 2)), (1, F(1, 2))), g)
+    # undiscounted, gain exactly 0 everywhere, several sweeps through a slow leak to the goal: the solve returns the zero gain with
+    # round-off of ~1e-8 (family around a witness found by reading the policy-assembly code)
+    for pr in (F(9, 10), F(3, 4), F(99, 100), F(1, 2)):
+        for r01, r20, r21 in ((-1, 0, -3), (-1, -1, -1), (-2, 0, -1)):
+            T = ((('a', ((0, one),), F(-2)), ('b', ((2, pr), (3, 1 - pr)), F(r01))),
+                 (('a', ((0, one),), F(-1)), ('b', ((2, one),), F(0))),
+                 (('a', ((0, 1 - pr), (1, pr)), F(r20)), ('b', ((0, pr), (1, 1 - pr)), F(r21))),
+                 (('a', ((3, one),), F(0)), ('b', ((3, one),), F(0))))
+            yield ('mdp', 4, T, (3,), ((0, one),), F(1))
     # nearly tied actions: rewards 0.0100 / 0.0105 / 0.0095 give action-value gaps of 5e-4 and less, far above round-off
     yield from build.enum_mdps(2, [('a', 'b')], 1, [F(1, 100), F(21, 2000), F(19, 2000)], [(), (1,)], [build.INIT_MENU[2][1]], [F(9, 10)],
                                nonpositive_when_undiscounted=False)
